@@ -104,8 +104,9 @@ XfTable(c) ==
       none == [j \in DOMAIN cols |-> RNaN]
       vals == RowMap(c.rows, c.keys, c.dropna,
                      LAMBDA m, pos : [j \in DOMAIN cols |-> XfVal(c.op, c.p, m, pos, cols[j])], none)
-  IN \* pandas raises (IndexError) for transform on a non-empty frame none of whose rows belongs to a group
-     IF c.op = "tsum" /\ c.rows # <<>> /\ Grouped(c.rows, c.keys, c.dropna) = <<>> THEN GFailure ELSE
+  IN \* pandas raises (IndexError) for DataFrameGroupBy.transform on a non-empty frame none of whose rows belongs to a
+     \* group (all keys NA under dropna); SeriesGroupBy.transform returns the all-NaN series in that case
+     IF c.op = "tsum" /\ c.tgt = "frame" /\ c.rows # <<>> /\ Grouped(c.rows, c.keys, c.dropna) = <<>> THEN GFailure ELSE
      [k |-> "rows", gk |-> [i \in DOMAIN c.rows |-> <<c.rows[i].idx>>],
       cl |-> [j \in DOMAIN cols |-> [c |-> ColPosIn(cols[j], c.vcols), f |-> c.op]],
       v |-> vals, ordered |-> (c.op \in {"cumsum", "cumprod", "cumcount"}), err |-> FALSE]
